@@ -219,7 +219,10 @@ def v15_sign_case(kd, hn, msg, acc):
             acc.observe("pkcs1_15.sign raises %s (documented: ValueError) when the modulus is too short for the DigestInfo" % out[0])
         return None
     if out[0] in ("ValueError", "TypeError"):
-        acc.observe("pkcs1_15 sign refuses (%s: %s): %s/%s" % (out[0], out[1], kd["name"], hn))
+        # deterministic scheme: where RFC 8017 9.2 defines the encoded message (emLen >= tLen + 11), sign() must output it
+        acc.violation("C04/pkcs1_15/sign-refuses-a-defined-signature",
+                      pre + ": sign() raised %s (%s) although k = %d >= tLen + 11 and RFC 8017 defines the signature %s"
+                      % (out[0], out[1], k, short(R.i2osp(priv(kd, R.os2ip(em)), k))), case)
         return None
     if out[0] != "accept":
         acc.violation("C04/pkcs1_15/sign-raises/%s@%s" % (out[0], exc_site(out[1])), pre + ": sign raised %s: %s" % (out[0], out[1]), case)
